@@ -268,6 +268,9 @@ def run_all(cases, jobs=16):
 
 # ------------------------------------------------------------------ judging
 def describe(event, clauses):
+    if event.get("op") == "eval":
+        return (f"evaluator on solution {event.get('sol')} of {event['in']} fails {clauses}: events {event.get('events')} "
+                f"cost {event.get('cost')} = {event.get('rcost')} + {event.get('lcost')}")
     return (f"{ALGOS[event['fam']][event['algo']]}({event['policy']}) fails {clauses} on {event.get('pin', event['in'])}: "
             f"exc={event['exc']!r} returned {len(event['sols'])} solution(s) costs {event['costs'][:5]} "
             f"first {event['sols'][:1]} {event.get('notes', '')}")
